@@ -47,6 +47,7 @@ def _run_base(ctx):
     ctx.rule('R05.1', 'non-conflict arms (untouched, one-sided, identical) are the first arms any such chunk/op pair can reach and are strategy-free; '
              'onesided/agreement create unconflicted decisions', floor=20)
     ctx.rule('R05.2', 'strategies only ever touch conflicted decisions: entry guards has_conflicted(), per-decision stores under d.conflict', floor=10)
+    mirror.find_membership_params(repo)
     ctx.rule('R05.4', 'adjacent assignments to a local/remote pair of names are mirror images of each other (no side reads the other side\'s data)', floor=30)
     ctx.rule('R05.3', 'local/remote mirror symmetry: every arm of the merger dispatch chains is self-mirror or has a mirror arm in the same chain', floor=35, floor_what='top-level arms of 8 chains')
 
